@@ -5,7 +5,7 @@ package forwarder
 
 // C13: every request the proxy reads is reported complete exactly once, with the status the client was sent.
 //
-//vf:assume C13-trace: two (quick) / three (thorough) exchanges on one connection through the real connection loop, each one of: forwarded GET, GET refused by authentication (407), GET whose round trip fails, GET answered 426 with Upgrade fields, HEAD, CONNECT tunnel that runs to completion, CONNECT whose dial fails; optionally the client socket fails for writes after k bytes; the completion hooks (ProxyTrace) are ghost counters
+//vf:assume C13-trace: two (quick) / three (thorough) exchanges on one connection through the real connection loop, each one of: forwarded GET, GET refused by authentication (407), GET whose round trip fails, GET answered 426 with Upgrade fields, HEAD, CONNECT tunnel that runs to completion, CONNECT whose dial fails, CONNECT that is intercepted (MITM hand-off with plaintext inside; the TLS handshake of a real interception is outside); optionally the client socket fails for writes after k bytes; the completion hooks (ProxyTrace) are ghost counters
 //vf:assume C13-trace: one schedule per tunnel (directions one after the other); concurrent closes are covered by the conntrack harness only sequentially (sync.Once is trusted)
 
 import (
@@ -18,6 +18,7 @@ import (
 	"net/url"
 
 	"github.com/saucelabs/forwarder/internal/martian"
+	"github.com/saucelabs/forwarder/internal/martian/mitm"
 	"github.com/saucelabs/forwarder/internal/vfrt"
 )
 
@@ -28,11 +29,16 @@ type vfExchange struct {
 	text    string
 	tunnel  bool
 	lastOne bool // the connection ends with this exchange
+	mitm    bool // CONNECT that the proxy intercepts: the connection goes on with the tunnelled requests
 }
 
 func vfExchangeKind(i int) vfExchange {
 	const auth = "Proxy-Authorization: Basic dTpwdw==\r\n"
-	switch vfrt.Choice("exchange", 7) {
+	switch vfrt.Choice("exchange", 8) {
+	case 7:
+		// MITM hand-off (the tunnelled bytes are plaintext HTTP, so no TLS handshake is needed): the following
+		// exchanges travel inside the intercepted tunnel
+		return vfExchange{method: "CONNECT", text: "CONNECT mitm.example:80 HTTP/1.1\r\nHost: mitm.example:80\r\n" + auth + "\r\n", mitm: true}
 	case 6:
 		// the origin refuses an upgrade: an ordinary (non-101) response that carries Upgrade fields
 		return vfExchange{method: "GET", text: "GET http://example.com/upgrade-required HTTP/1.1\r\nHost: example.com\r\n" + auth + "\r\n"}
@@ -50,7 +56,7 @@ func vfExchangeKind(i int) vfExchange {
 	return vfExchange{method: "CONNECT", text: "CONNECT refused.example:443 HTTP/1.1\r\nHost: refused.example:443\r\n" + auth + "\r\n"}
 }
 
-//vf:harness property=C13 nopanic reach=trace-two-exchanges,trace-tunnel,trace-write-failure steps=10000000
+//vf:harness property=C13 nopanic reach=trace-two-exchanges,trace-tunnel,trace-write-failure,trace-mitm-hand-off steps=10000000
 func vfH_C13_trace() {
 	cfg := HTTPProxyConfig{}
 	cfg.Name = "fw"
@@ -78,6 +84,8 @@ func vfH_C13_trace() {
 		}
 		return nil, &net.OpError{Op: "dial", Net: "tcp", Err: io.ErrUnexpectedEOF}
 	}
+	hp.proxy.MITMConfig = &mitm.Config{}
+	hp.proxy.MITMFilter = func(req *http.Request) bool { return req.URL.Hostname() == "mitm.example" }
 	reads, wrotes := 0, 0
 	var statuses []int
 	hp.proxy.Trace = &martian.ProxyTrace{
@@ -145,6 +153,12 @@ func vfH_C13_trace() {
 			break
 		}
 		vfrt.Assert(res.StatusCode == statuses[n], "trace/reported-status-is-the-status-sent")
+		isMITM := (n == 0 && e1.mitm) || (n == 1 && e2.mitm) || (n == 2 && e3.mitm)
+		if isMITM && res.StatusCode == 200 {
+			vfrt.Reach("trace-mitm-hand-off")
+			n++
+			continue
+		}
 		if method == "CONNECT" && res.StatusCode == 200 {
 			n++
 			break
